@@ -144,11 +144,22 @@ def check_misses(t, clsname, shape, inst):
             t.outcome("miss-clean")
 
 
-def check_copies(t, clsname, shape, inst):
+def check_copies(t, clsname, shape, inst, origin="built"):
+    if origin == "built":
+        # the same model as a reader produces it (values converted from text, e.g. date-times carrying the library's own
+        # UTC object) must be as copyable as the one built from keywords
+        try:
+            with warnings.catch_warnings():
+                warnings.simplefilter("ignore")
+                parsed = type(inst).from_etree(inst.to_etree())
+        except Exception:
+            parsed = None  # own output refused: C01 / C13 territory
+        if parsed is not None:
+            check_copies(t, clsname, shape, parsed, "read")
     orig = S.inst_to_term(inst)
     for how, fn in (("copy", copy.copy), ("deepcopy", copy.deepcopy), ("pickle", lambda x: pickle.loads(pickle.dumps(x)))):
         t.count("evaluations")
-        case = {"cls": clsname, "shape": shape, "how": how}
+        case = {"cls": clsname, "shape": shape, "how": how, "origin": origin}
         try:
             dup = fn(inst)
         except Exception as e:
@@ -383,7 +394,7 @@ def run(ctx):
         "distinct_nontrivial": tally.counts.get("lookups", 0),
         "rule": "every class x shapes {MIN, MAXS, MAXS with each optional sub-aggregate toggled / each group switched / each repeated kind at 0,1,2,3 members"
         + (", sub-aggregates at MAXS, MAXD" if ctx.thorough else "") + "} x every name declared by exactly one non-repeated descendant aggregate and not by the class itself (must be the stored "
-        "object, or a clean miss when the defining aggregate is absent) + 6 undefined names (AttributeError, hasattr False, default honoured) + copy/deepcopy/pickle (equal model) "
+        "object, or a clean miss when the defining aggregate is absent) + 6 undefined names (AttributeError, hasattr False, default honoured) + copy/deepcopy/pickle of the instance as built and as read back from its own element tree (equal model) "
         "+ alias properties; OFX trees from every sequence of <=3 wrappers over 7 request / 8 response kinds: OFX.statements and each message set's statements equal the explicit "
         "walk by identity and order; OFX.securities over 0-2 lists x 0-2 securities; distinct_nontrivial = proxy look-ups",
         "instances": tally.counts.get("instances", 0),
